@@ -58,6 +58,12 @@ func c01Judge(k c01Case) *vlib.Failure {
 			}
 			return vlib.Failf("list of valid patterns %q rejected: %v", k.Patterns, err)
 		}
+		// earlier requests (from the probe origin and from every listed pattern taken as an origin) were served by a
+		// handler that overwrites in place whatever header slices it can reach: those belong to their own exchange
+		hs := m.Wrap(scribbler{})
+		for _, o := range append([]string{k.Origin}, k.Patterns...) {
+			hs.ServeHTTP(vlib.NewRec(), vlib.Req{Method: "GET", Hdr: map[string][]string{"Origin": {o}}}.HTTP())
+		}
 		inner := &vlib.Noop{}
 		h := m.Wrap(inner)
 		res := vlib.Serve(h, &inner.Calls, vlib.Req{Method: "GET", Hdr: map[string][]string{"Origin": {k.Origin}}}, nil)
@@ -705,9 +711,19 @@ func checkC01(c *vlib.Ctx) (string, string) {
 				return
 			}
 			h := m.Wrap(http.HandlerFunc(func(http.ResponseWriter, *http.Request) {}))
+			// earlier requests from every listed pattern taken as an origin were served by a handler that overwrites in
+			// place the header slices it can reach (the judge does the same, and from the probe origin too)
+			hs := m.Wrap(scribbler{})
+			for _, p := range list {
+				hs.ServeHTTP(vlib.NewRec(), vlib.Req{Method: "GET", Hdr: map[string][]string{"Origin": {p}}}.HTTP())
+			}
 			// the same list without the public-suffix switch, when it does not need it (the usual case in practice)
 			if m0, err0 := cors.NewMiddleware(cors.Config{Origins: list}); err0 == nil {
 				h0 := m0.Wrap(http.HandlerFunc(func(http.ResponseWriter, *http.Request) {}))
+				hs0 := m0.Wrap(scribbler{})
+				for _, p := range list {
+					hs0.ServeHTTP(vlib.NewRec(), vlib.Req{Method: "GET", Hdr: map[string][]string{"Origin": {p}}}.HTTP())
+				}
 				for o := range pset {
 					want := all || ref.DenotedByAny(list, o)
 					rec := vlib.NewRec()
